@@ -29,8 +29,8 @@ ANCHOR_FILES = ["src/ropt/ensemble_evaluator/_ensemble_evaluator.py", "src/ropt/
 RULE = ("case = one configuration; non-trivial if the run made at least one gradient (perturbation) request or is a population run; distinct key = case index; "
         "monitor_counters: traces compared, evaluator calls hashed")
 ASSUMPTIONS = ["differential_evolution is only required to be reproducible when given an explicit 'seed' option (as the statement says)"]
-REQUIRED = {"quick": {"trace_pairs_compared": 295, "evaluator_calls_hashed": 2515, "foreign_runs_interleaved": 144, "seed_sensitivity_checked": 30, "fresh_process_runs": 6, "first_drawing_sampler_without_variables": 5, "__nontrivial__": 63},
-            "thorough": {"trace_pairs_compared": 6075, "evaluator_calls_hashed": 57264, "foreign_runs_interleaved": 3000, "seed_sensitivity_checked": 700, "fresh_process_runs": 75, "__nontrivial__": 1245}}
+REQUIRED = {"quick": {"trace_pairs_compared": 295, "evaluator_calls_hashed": 2515, "foreign_runs_interleaved": 144, "seed_sensitivity_checked": 30, "fresh_process_runs": 6, "same_step_reruns": 200, "first_drawing_sampler_without_variables": 5, "__nontrivial__": 63},
+            "thorough": {"trace_pairs_compared": 6075, "evaluator_calls_hashed": 57264, "foreign_runs_interleaved": 3000, "seed_sensitivity_checked": 700, "fresh_process_runs": 75, "same_step_reruns": 4000, "__nontrivial__": 1245}}
 N = {"quick": 120, "thorough": 2500}
 SAMPLERS = ["norm", "uniform", "truncnorm", "sobol", "halton", "lhs"]
 
@@ -96,8 +96,11 @@ def _hash_arrays(h, arrs):
             h.update(str(a.dtype).encode() + str(a.shape).encode() + a.tobytes())
 
 
-def run_trace(spec, *, reseed=False, pm=None, ctx_holder=None):
-    """Execute one optimizer step; return (digest, n_calls, perturbed rows digest, had_perturbations)."""
+def run_trace(spec, *, reseed=False, pm=None, ctx_holder=None, repeat=None):
+    """Execute one optimizer step; return (digest, n_calls, perturbed rows digest, had_perturbations).
+
+    repeat=k: the same step object of one plan is run k times with one validated configuration object (a restart loop);
+    the list of the k per-run results is returned."""
     from ropt.enums import EventType  # noqa: PLC0415
     from ropt.plan import OptimizerContext, Plan  # noqa: PLC0415
 
@@ -125,9 +128,24 @@ def run_trace(spec, *, reseed=False, pm=None, ctx_holder=None):
         np.random.seed(12345)  # noqa: NPY002
     import warnings  # noqa: PLC0415
 
+    if repeat:
+        cfg = ens.make_config(spec)
+        out = []
+        for _ in range(repeat):
+            h = hashlib.sha256()
+            del ev.calls[:]
+            with warnings.catch_warnings():
+                warnings.simplefilter("ignore")
+                code = plan.run_step(step, config=cfg)
+            out.append(_finish(h, ev, code))
+        return out
     with warnings.catch_warnings():
         warnings.simplefilter("ignore")
         code = plan.run_step(step, config=ens.make_config_dict(spec))
+    return _finish(h, ev, code)
+
+
+def _finish(h, ev, code):
     hp = hashlib.sha256()
     had = False
     for c in ev.calls:
@@ -188,6 +206,13 @@ def run_case(case, obs):
     if D1[0] != A[0] or D2[0] != A[0]:
         obs.violation("trace_depends_on_plugin_manager_reuse", first=D1[0] == A[0], second=D2[0] == A[0])
         return
+    # F: a restart loop - one step object of one plan run again and again with one validated configuration object
+    for k, Fk in enumerate(run_trace(spec, repeat=3)):
+        obs.count("trace_pairs_compared")
+        obs.count("same_step_reruns")
+        if Fk[0] != A[0]:
+            obs.violation("trace_depends_on_earlier_runs_of_the_same_step", run=k, samplers=spec["samplers"], calls=[A[1], Fk[1]])
+            return
     # seed sensitivity (also after the runs above)
     if A[3]:
         other = json.loads(json.dumps(spec))
